@@ -9,6 +9,7 @@ import (
 	"runtime"
 	"sort"
 	"strings"
+	"sync/atomic"
 	"time"
 
 	"github.com/btcsuite/btcd/btcutil"
@@ -27,7 +28,21 @@ import (
 
 const P = "C20"
 
-var classes = []string{"accepted", "already-in-mempool", "already-known", "already-confirmed", "rejected-generic", "rejected-insufficient-fee", "rejected-mempool-conflict", "subscription-failure-1", "subscription-failure-2"}
+var classes = []string{"accepted", "already-in-mempool", "already-known", "already-confirmed", "rejected-generic", "rejected-insufficient-fee", "rejected-mempool-conflict", "rejected-any-node-reason", "subscription-failure-1", "subscription-failure-2"}
+
+// every rejection reason a node can give (chain.RPCErr), except the three
+// answers that mean the node has the transaction
+var nodeReasons = func() []error {
+	var out []error
+	for e := chain.ErrMissingInputsOrSpent; e <= chain.ErrNonMandatoryScriptVerifyFlag; e++ {
+		if e == chain.ErrTxAlreadyKnown || e == chain.ErrTxAlreadyConfirmed || e == chain.ErrTxAlreadyInMempool {
+			continue
+		}
+		out = append(out, e)
+	}
+	return out
+}()
+var reasonCtr int64
 
 func answerFor(class string) error {
 	switch class {
@@ -43,6 +58,8 @@ func answerFor(class string) error {
 		return chain.ErrInsufficientFee
 	case "rejected-mempool-conflict":
 		return chain.ErrMempoolConflict
+	case "rejected-any-node-reason":
+		return nodeReasons[int(atomic.AddInt64(&reasonCtr, 1))%len(nodeReasons)]
 	}
 	return nil
 }
@@ -340,6 +357,23 @@ func runWallet(r *evid.Run, dir string, idx int, cs int64) {
 					}
 				}
 				r.Hit("rejected-republish-removed-descendants", len(gone)-1)
+			} else {
+				// already known / confirmed (a claim of this harness's backend that no
+				// block will ever back up): the wallet drops the transaction and waits
+				// for the block.  Only "no error" is asserted; the ledger and the fake
+				// mempool follow whatever the wallet no longer records.
+				um := unminedSet(f)
+				for _, p := range append([]*wire.MsgTx{}, f.Pending...) {
+					if !um[p.TxHash()] {
+						ch.Evict(p.TxHash())
+						f.Forget(p)
+					}
+				}
+				for _, t := range append([]*wire.MsgTx{}, refunds...) {
+					if !um[t.TxHash()] {
+						dropRefund(t.TxHash())
+					}
+				}
 			}
 		default:
 			// accepted / already in mempool: recorded exactly once, inputs unspendable, change counted once
@@ -621,7 +655,7 @@ func reoffer(r *evid.Run, f *wh.Funded, rg *rand.Rand, log *[]string, fail func(
 
 func main() {
 	r := evid.New(P, "fault_enumeration")
-	r.Rule("complete funded wallets over the fake backend (plus, at the end of half of the wallets, a PublishTransaction with NO backend attached, which must fail and leave no trace); at every broadcast (fresh SendOutputs, a payment to one of the wallet's own addresses, a child sweeping BOTH wallet outputs of such an unconfirmed parent, chained send spending a pending transaction's change at minconf 0, CreateSimpleTx + PublishTransaction, re-publish of a recorded parent that has unconfirmed children) one backend answer class is applied, cycling through all of: accepted, already-in-mempool, already-known, already-confirmed, rejected (generic / insufficient fee / mempool conflict) and subscription failure at the 1st and at the 2nd NotifyReceived call of the attempt. Oracle per class from a before/after snapshot (balance at 0 and 1 conf, ListUnspent set, unconfirmed set, leases): failed attempts return an error and leave the snapshot identical (and remove every unconfirmed descendant of a re-published parent, releasing its coins); accepted / already-in-mempool record the transaction exactly once, make its inputs unspendable and count the change once; already-known/confirmed return no error. Re-offer: the synchronous verif hook runs the wallet's rebroadcast with three answer policies (accept all / reject the first offered / reject a random one): every unconfirmed transaction that is not a descendant of a rejected one must be offered exactly once, parents before children, and rejected ones (with descendants) must be forgotten; after restarts the production (detached) trigger is judged once no goroutine is left inside the rebroadcast. Non-trivial = every wallet; distinct = distinct attempt logs.")
+	r.Rule("complete funded wallets over the fake backend (plus, at the end of half of the wallets, a PublishTransaction with NO backend attached, which must fail and leave no trace); at every broadcast (fresh SendOutputs, a payment to one of the wallet's own addresses, a child sweeping BOTH wallet outputs of such an unconfirmed parent, chained send spending a pending transaction's change at minconf 0, CreateSimpleTx + PublishTransaction, re-publish of a recorded parent that has unconfirmed children) one backend answer class is applied, cycling through all of: accepted, already-in-mempool, already-known, already-confirmed, rejected (generic / insufficient fee / mempool conflict / each of the node's other rejection reasons in chain.RPCErr in turn) and subscription failure at the 1st and at the 2nd NotifyReceived call of the attempt. Oracle per class from a before/after snapshot (balance at 0 and 1 conf, ListUnspent set, unconfirmed set, leases): failed attempts return an error and leave the snapshot identical (and remove every unconfirmed descendant of a re-published parent, releasing its coins); accepted / already-in-mempool record the transaction exactly once, make its inputs unspendable and count the change once; already-known/confirmed return no error. Re-offer: the synchronous verif hook runs the wallet's rebroadcast with three answer policies (accept all / reject the first offered / reject a random one): every unconfirmed transaction that is not a descendant of a rejected one must be offered exactly once, parents before children, and rejected ones (with descendants) must be forgotten; after restarts the production (detached) trigger is judged once no goroutine is left inside the rebroadcast. Non-trivial = every wallet; distinct = distinct attempt logs.")
 	r.Trusted("internal/fakechain", "verif hook wallet.VerifResendUnminedTxs (synchronous call of the unexported method)")
 	r.Assume("already-known / already-confirmed: only 'no error' is asserted (the wallet expects the block notification)", "quiescence of the detached rebroadcast goroutine is decided from goroutine state")
 	dir, _ := os.MkdirTemp("", "c20")
